@@ -82,7 +82,7 @@ var variants = map[string][]string{
 	"governance.CastVote": {"valid", "valid", "not-eligible", "unknown-proposal", "invalid-vote", "closed", "cbor"},
 
 	"roothash.ExecutorCommit": {"valid-messages", "valid", "valid", "valid-all", "no-commits", "unknown-runtime", "not-member", "wrong-round", "bad-signature", "duplicate", "failure", "bad-messages", "cbor"},
-	"roothash.Evidence":       {"equivocation", "same-commit", "empty", "unknown-runtime", "bad-signature", "proposal-equivocation", "cbor"},
+	"roothash.Evidence":       {"equivocation", "same-commit", "empty", "unknown-runtime", "bad-signature", "proposal-equivocation", "unknown-node", "unknown-node", "cbor"},
 	"roothash.SubmitMsg":      {"valid", "valid", "fee-too-low", "unknown-runtime", "too-much", "cbor"},
 
 	"vault.Create": {"valid", "valid-2of3", "no-addresses", "zero-threshold", "threshold-too-big", "cbor"},
